@@ -173,9 +173,11 @@ class RefDrive402:
     LIVELOCK_LIMIT = 400
 
     def __init__(self, node_id, start=SOD, k=0, extras=(0,), qs="stay", cw0=0, supported=0,
-                 display=0, kmode=0, layout="none", tpdo_tt=255, rpdo_tt=255, level=False):
+                 display=0, kmode=0, layout="none", tpdo_tt=255, rpdo_tt=255, level=False,
+                 timer_only=False):
         self.node_id = node_id
         self.level = level
+        self.timer_only = timer_only    # TPDOs only on the event timer (clock ticks), not on change
         self.k = k
         self.extras = list(extras) or [0]
         self.qs = qs
@@ -245,6 +247,7 @@ class RefDrive402:
     mode_rx = None      # last value received for 0x6060 (repeats of a cyclic RPDO included)
     force_sw = None     # decode family: answer with this word whatever the state
     last_word = None
+    last_tpdo_word = None
 
     def statusword(self):
         extra = self.extras[self.sw_count % len(self.extras)]
@@ -464,7 +467,8 @@ class RefDrive402:
             data = b""
             for index, bits in entries:
                 if index == 0x6041:
-                    data += struct.pack("<H", self.statusword())
+                    self.last_tpdo_word = self.statusword()
+                    data += struct.pack("<H", self.last_tpdo_word)
                 elif index == 0x6061:
                     data += struct.pack("<b", self.display)
                 else:
@@ -481,7 +485,7 @@ class RefDrive402:
     def _emit_event_tpdos(self):
         """Event-driven TPDOs (transmission type 254/255): sent when a mapped
         object changed."""
-        if self.port is None or self.tpdo_tt < 254 or not self._dirty:
+        if self.port is None or self.tpdo_tt < 254 or self.timer_only or not self._dirty:
             return
         self._dirty = False
         self._send(self._tpdo_frames(only_changed=True))
